@@ -268,6 +268,27 @@ Proof.
   split; [exact A'|]. rewrite G. cbn [bsum]. cbn [bsum] in C.
   match type of C with ?l = ?r => transitivity (l + err nc); [ring | rewrite C; ring] end.
 Qed.
+
+Lemma add_many_loop_nocall : forall rest i nc Y, (i + length rest < 15)%nat ->
+  snd (add_many_loop K trunc i nc Y rest) = nc.
+Proof.
+  induction rest as [|Yc rest IH]; intros i nc Y H; [reflexivity|]. cbn [add_many_loop length] in *.
+  rewrite (Nat.mod_small (S i) 15) by lia. cbn [Nat.eqb]. apply IH. lia.
+Qed.
+
+(* add_many seen from its last truncate call *)
+Theorem add_many_pre Y0 rest : okY Y0 -> Forall okY rest ->
+  exists Ypre ncalls, add_many K trunc (Y0 :: rest) = trunc ncalls Ypre /\ (ncalls <= length rest)%nat /\
+    ((length rest < 15)%nat -> ncalls = O) /\ okY Ypre /\
+    get K Ypre idx = get K Y0 idx + lsum K (map (fun Yc => get K Yc idx) rest) + bsum K ncalls err.
+Proof.
+  intros H0 HR. unfold add_many, copy.
+  pose proof (add_many_loop_get rest O O Y0 H0 HR) as H. cbn zeta in H.
+  pose proof (add_many_loop_nocall rest O O Y0) as Hs.
+  destruct (add_many_loop K trunc 0 0 Y0 rest) as [Y nc]. cbn [fst snd] in H, Hs. destruct H as (A & B & C).
+  exists Y, nc. split; [reflexivity|]. split; [lia|]. split; [intros Hl; apply Hs; lia|]. split; [exact A|].
+  cbn [bsum] in C. rewrite <- C. ring.
+Qed.
 End AddMany.
 
 Section Order2.
@@ -413,17 +434,17 @@ Proof.
   - rewrite !nth_overflow by (rewrite ?map_length; auto). reflexivity.
 Qed.
 
-Theorem anova_order2_get_partial I y (M : anova T) r g trunc idx err :
+(* the structure of ANOVA(order=2).cores(r, noise=0): add_many of the order-1 tensor and one pair tensor per pair; all
+   summands are well formed with the observed shape and their entries add up to calc_pos (whatever truncate does) *)
+Lemma anova_order2_struct I y (M : anova T) r g idx :
   ANOVA K I y 2 = Ok M -> (2 <= r)%nat -> (2 <= dimI I)%nat ->
   length idx = dimI I -> (forall k, (k < dimI I)%nat -> (nth k idx O < nth k (shapes (domain I)) O)%nat) ->
-  (forall k Y, okY idx (shapes (domain I)) Y ->
-               okY idx (shapes (domain I)) (trunc k Y) /\ get K (trunc k Y) idx = get K Y idx + err k) ->
-  exists Y ncalls, cores K M r 0 false g skel trunc = Ok Y /\
-     (1 <= ncalls <= S (length (pairs (dimI I))))%nat /\
-     wf 1 Y idx /\ shape Y = shapes (domain I) /\
-     get K Y idx = calc_pos K M idx + bsum K ncalls err.
+  exists Ps, length Ps = length (pairs (dimI I)) /\
+     (forall trunc, cores K M r 0 false g skel trunc = Ok (add_many K trunc (cores_1 K M r 0 g :: Ps))) /\
+     okY idx (shapes (domain I)) (cores_1 K M r 0 g) /\ Forall (okY idx (shapes (domain I))) Ps /\
+     get K (cores_1 K M r 0 g) idx + lsum K (map (fun Yc => get K Yc idx) Ps) = calc_pos K M idx.
 Proof.
-  intros HM Hr Hd L Hidx Htr.
+  intros HM Hr Hd L Hidx.
   unfold ANOVA in HM. cbn [Nat.eqb orb negb Nat.leb] in HM. injection HM as <-.
   set (dom := domain I) in *. set (f0 := build_0 K y). set (f1 := build_1 K dom I y f0).
   set (f2 := build_2 K dom I y f0 f1). set (M := mk_anova 2 dom f0 f1 f2).
@@ -479,13 +500,11 @@ Proof.
       cbn [a_f1 M]. apply build_1_shape. }
   assert (H2 : Forall (okY idx (shapes dom)) (tab np P)).
   { apply Forall_forall. intros Yc Hin. apply in_tab in Hin as (num & Hnum & ->). now apply HP. }
-  destruct (add_many_get K Rth trunc idx (shapes dom) err Htr ltac:(lia) _ _ H1 H2) as (nc & Hnc & Hok & G).
-  exists (add_many K trunc (cores_1 K M r 0 g :: tab np P)), nc.
-  split.
-  { unfold cores. destruct (Nat.ltb_spec r 2); [lia|]. cbn [a_order M]. cbn [Nat.ltb Nat.leb].
+  exists (tab np P). split; [apply tab_length|]. split.
+  { intros trunc. unfold cores. destruct (Nat.ltb_spec r 2); [lia|]. cbn [a_order M]. cbn [Nat.ltb Nat.leb].
     rewrite HC2. reflexivity. }
-  rewrite tab_length in Hnc. split; [exact Hnc|]. split; [apply Hok|]. split; [apply Hok|].
-  rewrite G. f_equal. unfold calc_pos. cbn [a_order M Nat.leb a_f0]. 
+  split; [exact H1|]. split; [exact H2|].
+  unfold calc_pos. cbn [a_order M Nat.leb a_f0]. 
   rewrite (cores_1_get K Rth) by (auto; lia). cbn [a_f0 M].
   unfold calc_1_pos, calc_2_pos. rewrite L, HdM. f_equal.
   rewrite map_tab.
@@ -493,5 +512,46 @@ Proof.
   apply tab_ext. intros num Hnum. destruct (HP num Hnum) as [_ ->].
   destruct (pair_num_bijection (dimI I)) as (_ & _ & Sj). destruct (Sj num Hnum) as (i & j & Hij & Epn & En).
   rewrite En. cbn [fst snd a_f2 M]. now rewrite Epn.
+Qed.
+
+Theorem anova_order2_get_partial I y (M : anova T) r g trunc idx err :
+  ANOVA K I y 2 = Ok M -> (2 <= r)%nat -> (2 <= dimI I)%nat ->
+  length idx = dimI I -> (forall k, (k < dimI I)%nat -> (nth k idx O < nth k (shapes (domain I)) O)%nat) ->
+  (forall k Y, okY idx (shapes (domain I)) Y ->
+               okY idx (shapes (domain I)) (trunc k Y) /\ get K (trunc k Y) idx = get K Y idx + err k) ->
+  exists Y ncalls, cores K M r 0 false g skel trunc = Ok Y /\
+     (1 <= ncalls <= S (length (pairs (dimI I))))%nat /\
+     wf 1 Y idx /\ shape Y = shapes (domain I) /\
+     get K Y idx = calc_pos K M idx + bsum K ncalls err.
+Proof.
+  intros HM Hr Hd L Hidx Htr.
+  destruct (anova_order2_struct I y M r g idx HM Hr Hd L Hidx) as (Ps & LP & HC & H1 & H2 & HS).
+  assert (Hshp : (2 <= length (shapes (domain I)))%nat) by (unfold shapes; rewrite map_length, domain_length; exact Hd).
+  destruct (add_many_get K Rth trunc idx (shapes (domain I)) err Htr Hshp _ _ H1 H2) as (nc & Hnc & Hok & G).
+  exists (add_many K trunc (cores_1 K M r 0 g :: Ps)), nc.
+  split; [apply HC|]. rewrite LP in Hnc. split; [exact Hnc|]. split; [apply Hok|]. split; [apply Hok|].
+  rewrite G, HS. reflexivity.
+Qed.
+
+(* the same result seen from the last truncate call: it is truncate(e, r) applied to a TT-tensor Ypre whose entry is
+   calc_pos plus the changes made by the earlier (intermediate) truncate calls; with fewer than 15 pairs (d <= 5)
+   there is no intermediate call and Ypre denotes constant + univariate + pair terms exactly *)
+Theorem anova_order2_pre I y (M : anova T) r g trunc idx err :
+  ANOVA K I y 2 = Ok M -> (2 <= r)%nat -> (2 <= dimI I)%nat ->
+  length idx = dimI I -> (forall k, (k < dimI I)%nat -> (nth k idx O < nth k (shapes (domain I)) O)%nat) ->
+  (forall k Y, okY idx (shapes (domain I)) Y ->
+               okY idx (shapes (domain I)) (trunc k Y) /\ get K (trunc k Y) idx = get K Y idx + err k) ->
+  exists Ypre ncalls, cores K M r 0 false g skel trunc = Ok (trunc ncalls Ypre) /\
+     (ncalls <= length (pairs (dimI I)))%nat /\ ((length (pairs (dimI I)) < 15)%nat -> ncalls = O) /\
+     wf 1 Ypre idx /\ shape Ypre = shapes (domain I) /\
+     get K Ypre idx = calc_pos K M idx + bsum K ncalls err.
+Proof.
+  intros HM Hr Hd L Hidx Htr.
+  destruct (anova_order2_struct I y M r g idx HM Hr Hd L Hidx) as (Ps & LP & HC & H1 & H2 & HS).
+  assert (Hshp : (2 <= length (shapes (domain I)))%nat) by (unfold shapes; rewrite map_length, domain_length; exact Hd).
+  destruct (add_many_pre K Rth trunc idx (shapes (domain I)) err Htr Hshp _ _ H1 H2) as (Ypre & nc & E & Hnc & Hsmall & Hok & G).
+  exists Ypre, nc. rewrite HC, E. rewrite LP in Hnc, Hsmall.
+  split; [reflexivity|]. split; [exact Hnc|]. split; [exact Hsmall|]. split; [apply Hok|]. split; [apply Hok|].
+  rewrite G, HS. reflexivity.
 Qed.
 End Order2Top.
